@@ -117,7 +117,10 @@ def gen_children_seq(rng, model, n, allow_nn, maxlen=5):
     xs = out[:maxlen]
     r = rng.random()
     role = "plain"
-    if r < 0.06 and xs:
+    if len(xs) > 24 and allow_nn and r < 0.3:
+        xs.insert(rng.randrange(len(xs) + 1), {"nn": rng.choice(NN_TAGS)})
+        role = "nn"
+    elif r < 0.06 and xs:
         xs.insert(rng.randrange(len(xs) + 1), rng.choice(xs))
         role = "dup"
     elif r < 0.12:
